@@ -652,7 +652,7 @@ ASSUMPTIONS = [
 
 def run(tier, seed):
     core.standard_run(PID, tier, seed, {
-        'model_vos': ['Node/Fs', 'Node/Cache'], 'table_sections': ['c12'],
+        'model_vos': ['Node/Fs', 'Node/Cache'], 'table_sections': ['c12', 'source_shape'],
         'preamble': preamble(), 'run_fn': RUN_FN, 'in_type': 'case',
         'gen_case': gen_case, 'impl_run': impl_run, 'expected': expected, 'case_term': case_term,
         'oracle': oracle, 'nontrivial': nontrivial,
